@@ -281,6 +281,15 @@ func cqRoot(p cqp) func() {
 				if p.fixture == "manyfiles" || p.fixture == "long" {
 					vapi.Quiesce()
 				}
+				// was the query's pipeline still running when the cancellation arrived? (its
+				// goroutines carry the package name; a started engine's ingest / flush workers do not count)
+				live := 0
+				for _, t := range vapi.LiveTasks() {
+					if strings.Contains(t, "bloomsearch.") && !strings.Contains(t, "startWorkers") && !strings.Contains(t, "Start") && !strings.Contains(t, "Stop") {
+						live++
+					}
+				}
+				vapi.Log("cancel live=%d", live)
 				vapi.Log("cancel begin")
 				cancel()
 				vapi.Log("cancel done")
@@ -381,12 +390,7 @@ func cqRoot(p cqp) func() {
 			}
 		}
 		cb, cd := logIndex(log, "cancel begin"), logIndex(log, "cancel done")
-		rowsBeforeCancel := 0
-		for i := 0; i < len(log) && (cb < 0 || i < cb); i++ {
-			if log[i] == "ret Next true" {
-				rowsBeforeCancel++
-			}
-		}
+		pipelineLiveAtCancel := logIndexPrefix(log, "cancel live=") >= 0 && log[logIndexPrefix(log, "cancel live=")] != "cancel live=0"
 		// the call event of the Next call that returned false (len(log) when there is none)
 		finalNextCall := len(log)
 		for i := range log {
@@ -403,11 +407,11 @@ func cqRoot(p cqp) func() {
 		atT, _ := errAfterT.Get()
 		cancelled := p.cancel
 		switch {
-		case cancelled && cd >= 0 && cd < tcall && (cd < finalNextCall || rowsBeforeCancel < fixtureRows(p.fixture)):
-			// (exempt: every matching row had been handed out and a Next call was already in
-			// progress when the context was cancelled — that call may have observed the natural
-			// end of the query first, so the terminal state was decided before the cancellation,
-			// whichever call returns first)
+		case cancelled && cd >= 0 && cd < tcall && (cd < finalNextCall || pipelineLiveAtCancel):
+			// (exempt: the query's pipeline had already wound down by itself and a Next call was
+			// in progress when the context was cancelled — that call may have observed the natural
+			// end of the query, with whatever failures it recorded, before the cancellation, so the
+			// terminal state was decided first, whichever call returns first)
 			if !errors.Is(final, context.Canceled) {
 				vapi.Fail("C20: the caller context was cancelled before the terminal %s call began, but Err()=%v does not wrap context.Canceled", who, final)
 			}
